@@ -291,6 +291,41 @@ func runRecord(path string, seed int64, n, maxEvents int, sum *tl.Summary) {
 			}
 		}
 	}
+	// directed matrix: frame kind x effect of the inner frame x its ending x (outer frame stops / reverts),
+	// each under a seeded rule set on which the scenario's instructions exist
+	directed := 0
+	for ki, kind := range ek.FrameKinds {
+		for ei, e := range ek.FrameEffects {
+			for gi, ending := range ek.FrameEndings {
+				for oi, outerFails := range []bool{false, true} {
+					lo := ek.MinFork(kind, e, ending)
+					if outerFails && lo < ek.Byzantium {
+						lo = ek.Byzantium
+					}
+					f := forks[lo+(int(seed)*7+ki*5+ei*3+gi*2+oi)%(len(forks)-lo)]
+					p := ek.DirectedFrames(kind, e, ending, outerFails)
+					u := newUniverse()
+					for _, a := range []common.Address{ek.Origin, ek.Main, ek.HelperA, ek.HelperB, ek.HelperC, ek.NoSuch} {
+						u.add(a)
+					}
+					obsv := &observer{u: u, codes: map[common.Hash]int{}, vals: map[common.Hash]int{}}
+					rec := &recorder{tr: tr, o: obsv, collect: true, kinds: kinds}
+					execute(f, p, 400000, rec.hooks(), func(db *state.StateDB) { obsv.db = db })
+					rec = &recorder{tr: tr, o: obsv, maxEvents: maxEvents, kinds: kinds}
+					tr.Emit(tl.M{"op": "reset", "fork": f.Idx})
+					execute(f, p, 400000, rec.hooks(), func(db *state.StateDB) { obsv.db = db })
+					totalFrames += rec.frames
+					failedFrames += rec.failed
+					staticFrames += rec.staticFr
+					sum.Traces++
+					sum.Evaluations++
+					sum.Distinct++
+					directed++
+				}
+			}
+		}
+	}
+	sum.Extra["directed_scenarios"] = directed
 	sum.Steps = tr.N
 	for k, v := range kinds {
 		sum.Counts["frame:"+k] = v
